@@ -389,15 +389,29 @@ def straightline_value(call, find_method=None, find_function=None):
     h = _helper_of_call(call, find_method, find_function)
     if h is None:
         return None
-    body = [b for b in h.body if not (isinstance(b, ast.Expr) and isinstance(b.value, ast.Constant))]
+    body = []
+    for b in h.body:
+        if isinstance(b, ast.Expr) and isinstance(b.value, ast.Constant):
+            continue
+        if isinstance(b, ast.Assign) and len(b.targets) == 1 and isinstance(b.targets[0], ast.Tuple) \
+                and isinstance(b.value, ast.Tuple) and len(b.value.elts) == len(b.targets[0].elts) \
+                and all(isinstance(t, ast.Name) for t in b.targets[0].elts):
+            # `a, b = x, y` reads as two assignments (when no right-hand side reads a left-hand name)
+            lhs = {t.id for t in b.targets[0].elts}
+            if not any(isinstance(x, ast.Name) and x.id in lhs for v in b.value.elts for x in ast.walk(v)):
+                body += [ast.copy_location(ast.Assign(targets=[t], value=v), b) for t, v in zip(b.targets[0].elts, b.value.elts)]
+                continue
+        body.append(b)
     if not body or not isinstance(body[-1], ast.Return) or body[-1].value is None:
         return None
     if not all(isinstance(b, ast.Assign) and len(b.targets) == 1 and isinstance(b.targets[0], ast.Name) for b in body[:-1]):
         return None
-    m = single_assignments(h)
+    hv = clone(h)
+    hv.body = body
+    m = single_assignments(hv)
     if any(b.targets[0].id not in m for b in body[:-1]):
         return None
-    return substitute(fully_expanded(body[-1].value, h), _bind_call(h, call))
+    return substitute(fully_expanded(body[-1].value, hv), _bind_call(h, call))
 
 
 def fuse_generators(fn, find_method=None, find_function=None, rounds=3):
